@@ -2,7 +2,8 @@
  *   refzstd d                        stdin -> stdout, all frames; exit 0 = input ended exactly at a
  *                                    frame end, 3 = input ended inside a frame, 2 = corrupt
  *   refzstd c LEVEL CHECKSUM [OFF..] one frame; a block boundary (ZSTD_e_flush) is forced at the
- *                                    given plain offsets */
+ *                                    given plain offsets
+ *   refzstd w WINDOWLOG LDM          one frame with the given window log (long distance matching on/off) */
 #include <stdio.h>
 #include <stdlib.h>
 #include <string.h>
@@ -44,6 +45,29 @@ int main(int argc, char **argv)
 		}
 		fflush(stdout);
 		return mid ? 3 : 0;
+	}
+	if (argc >= 4 && strcmp(argv[1], "w") == 0) {
+		/* refzstd w WINDOWLOG LDM: one frame, content size not announced (two calls), so that the frame header
+		   carries the requested window */
+		ZSTD_CCtx *c = ZSTD_createCCtx();
+		size_t half = n / 2;
+		int k;
+		ZSTD_CCtx_setParameter(c, ZSTD_c_compressionLevel, 1);
+		if (ZSTD_isError(ZSTD_CCtx_setParameter(c, ZSTD_c_windowLog, atoi(argv[2]))))
+			return 2;
+		ZSTD_CCtx_setParameter(c, ZSTD_c_enableLongDistanceMatching, atoi(argv[3]));
+		for (k = 0; k < 2; ++k) {
+			ZSTD_inBuffer ib = { k ? in + half : in, k ? n - half : half, 0 };
+			do {
+				ZSTD_outBuffer ob = { obuf, ocap, 0 };
+				ret = ZSTD_compressStream2(c, &ob, &ib, k ? ZSTD_e_end : ZSTD_e_flush);
+				if (ZSTD_isError(ret))
+					return 2;
+				fwrite(obuf, 1, ob.pos, stdout);
+			} while (ret != 0 || ib.pos < ib.size);
+		}
+		fflush(stdout);
+		return 0;
 	}
 	if (argc >= 4 && strcmp(argv[1], "c") == 0) {
 		ZSTD_CCtx *c = ZSTD_createCCtx();
